@@ -1,9 +1,24 @@
-(* C01 - commands behave as Redis.  Statements only; proofs are in Proofs/RedisProofs.v.
-   The theorems are laws of the reference model (Model/Redis.v); that the implementation
-   equals the reference is decided by the correspondence check. *)
+(* C01 - commands behave as Redis: every reply and the keyspace match the Redis model.
+   Statements only; proofs are in Proofs/RedisProofs.v.
+   The theorems are laws of the reference semantics Model/Redis.v (dialect Redis) and of the
+   implementation as built (dialect AsBuilt = Redis with the two pinned deviations); that the
+   Rust implementation equals dialect AsBuilt is decided by the correspondence check. *)
 From stdpp Require Import gmap.
 From Coq Require Import ZArith NArith.
 From RV Require Import Lib.Hex Model.Redis Proofs.RedisProofs.
+Local Open Scope Z_scope.
+
+(* Every reachable state (any sequence of clock settings and commands, from the empty
+   keyspace): no key holds an empty collection and every stored deadline lies strictly after
+   the last clock reading. *)
+Theorem C01_reach_inv : forall dl (ops : list op) k v d,
+  (run dl ops).1 !! k = Some (v, d) ->
+  value_nonempty v = true /\ (forall t, d = Some t -> ((run dl ops).2 < t)%N).
+Proof.
+  intros dl ops k v d H. destruct (reach_inv_lemma dl ops k _ H) as [H1 H2].
+  split; [exact H1|]. intros t ->. exact H2.
+Qed.
+Print Assumptions C01_reach_inv.
 
 (* A key with deadline d is visible at every instant strictly before d and at no instant at
    or after d; a key without deadline stays; nothing appears when only the clock moves. *)
@@ -14,3 +29,153 @@ Theorem C01_visible_iff_before_deadline : forall (s : gmap (list N) (value * opt
   (forall t, s !! k = None -> advance s t !! k = None).
 Proof. exact visible_iff_before_deadline_lemma. Qed.
 Print Assumptions C01_visible_iff_before_deadline.
+
+(* A collection that becomes empty stops existing: after any command run in a state satisfying
+   the invariant (hence in any reachable state) no key holds an empty list/set/hash/zset. *)
+Theorem C01_empty_collection_vanishes : forall dl s now c k v d,
+  Inv (s, now) -> (exec dl s now c).1 !! k = Some (v, d) ->
+  match v with
+  | VStr _ => True | VList l => l <> [] | VSet x => x <> ∅ | VHash h => h <> ∅ | VZSet z => z <> ∅
+  end.
+Proof. exact empty_collection_vanishes_lemma. Qed.
+Print Assumptions C01_empty_collection_vanishes.
+
+(* ... and a key that is absent is reported absent: TYPE none, EXISTS 0, TTL/PTTL -2, GET nil. *)
+Theorem C01_absent_key_observations : forall dl (s : gmap (list N) (value * option N)) now k,
+  s !! k = None ->
+  (exec dl s now (TypeOf k)).2 = RSimple type_none /\ (exec dl s now (ExistsC [k])).2 = RInt 0 /\
+  (exec dl s now (Ttl k)).2 = RInt (-2) /\ (exec dl s now (Pttl k)).2 = RInt (-2) /\
+  (exec dl s now (Get k)).2 = RBulk None.
+Proof. exact absent_observations_lemma. Qed.
+Print Assumptions C01_absent_key_observations.
+
+(* ... popping the last element / removing the last member / field removes the key. *)
+Theorem C01_last_element_gone : forall dl (s : gmap (list N) (value * option N)) now k x d,
+  (s !! k = Some (VList [x], d) ->
+     (exec dl s now (LPop k)).1 !! k = None /\ (exec dl s now (RPop k)).1 !! k = None) /\
+  (s !! k = Some (VSet {[x]}, d) -> (exec dl s now (SRem k [x])).1 !! k = None) /\
+  (forall y, s !! k = Some (VHash {[x := y]}, d) -> (exec dl s now (HDel k [x])).1 !! k = None) /\
+  (forall z, s !! k = Some (VZSet {[x := z]}, d) -> (exec dl s now (ZRem k [x])).1 !! k = None).
+Proof. exact last_element_gone_lemma. Qed.
+Print Assumptions C01_last_element_gone.
+
+(* Key locality (frame lemma, reused by C02/C03): a command with key list ks - every command
+   except KEYS, DBSIZE, FLUSHDB, FLUSHALL - computes its reply and what it leaves at ks from
+   what the state holds at ks only, and touches no other key. *)
+Theorem C01_key_local : forall dl c ks, cmd_keys c = Some ks -> forall s1 s2 now,
+  agree_on ks s1 s2 ->
+  (exec dl s1 now c).2 = (exec dl s2 now c).2 /\
+  agree_on ks (exec dl s1 now c).1 (exec dl s2 now c).1 /\
+  forall k, k ∉ ks -> (exec dl s1 now c).1 !! k = s1 !! k.
+Proof. exact key_local_lemma. Qed.
+Print Assumptions C01_key_local.
+
+(* ---- laws that pin the oracle itself *)
+
+(* Index normalisation of LRANGE/LTRIM/ZRANGE for every pair of Z indices: the result is
+   exactly the elements at positions S..E where S = start (from the end if negative, clamped at
+   0) and E = stop (from the end if negative, clamped at len-1). *)
+Theorem C01_lrange_index_normalisation : forall (l : list (list N)) (a b : Z) (i : nat),
+  let len := zlen l in
+  let S := if a <? 0 then Z.max (len + a) 0 else a in
+  let E := Z.min (if b <? 0 then len + b else b) (len - 1) in
+  lrange l a b !! i = if S + Z.of_nat i <=? E then l !! Z.to_nat (S + Z.of_nat i) else None.
+Proof. exact (@lrange_lookup_lemma (list N)). Qed.
+Print Assumptions C01_lrange_index_normalisation.
+
+Theorem C01_lindex_ltrim_getrange_agree_with_lrange : forall (l : list (list N)) d (i a b : Z),
+  lindex l i = head (lrange l i i) /\
+  lrange l 0 (-1) = l /\
+  (c_ltrim a b (Some (VList l, d))).1 = mk (VList (lrange l a b)) d /\
+  (forall dl (s : list N), 0 <= a -> 0 <= b -> getrange dl s a b = lrange s a b).
+Proof.
+  intros. split; [apply lindex_lrange_lemma|]. split; [apply lrange_all_lemma|].
+  split; [reflexivity|]. intros. by apply getrange_nonneg_lemma.
+Qed.
+Print Assumptions C01_lindex_ltrim_getrange_agree_with_lrange.
+
+(* INCRBY is exact, and is an error exactly when the stored string is not a canonical integer
+   (string2ll) or the sum leaves the i64 range; then nothing is written. *)
+Theorem C01_incrby_exact : forall (b : list N) d z,
+  c_incrby z (Some (VStr b, d)) =
+    match parse_i64 b with
+    | None => (Some (VStr b, d), RErr ENotInteger)
+    | Some cur =>
+        if (I64MIN <=? cur + z) && (cur + z <=? I64MAX)
+        then (Some (VStr (fmt_Z (cur + z)), d), RInt (cur + z))
+        else (Some (VStr b, d), RErr EOverflow)
+    end /\
+  (is_error (c_incrby z (Some (VStr b, d))).2 = true <->
+   match parse_i64 b with None => True | Some cur => cur + z < I64MIN \/ I64MAX < cur + z end) /\
+  c_incrby z None = (Some (VStr (fmt_Z z), None), RInt z).
+Proof.
+  intros. split; [apply incrby_exact_lemma|]. split; [apply incrby_error_iff_lemma | reflexivity].
+Qed.
+Print Assumptions C01_incrby_exact.
+
+(* The SET option table. *)
+Theorem C01_set_option_table : forall now v (oe : option (value * option N)),
+  c_set now v XNone false false false oe = (Some (VStr v, None), ROk) /\
+  c_set now v XKeepTtl false false false oe = (Some (VStr v, entry_deadline oe), ROk) /\
+  (is_some oe = true -> c_set now v XNone true false false oe = (oe, RNil)) /\
+  (is_some oe = false -> c_set now v XNone false true false oe = (oe, RNil)) /\
+  (holds_nonstr oe = false -> c_set now v XNone false false true oe = (Some (VStr v, None), old_str oe)) /\
+  (holds_nonstr oe = true -> c_set now v XNone false false true oe = (oe, RErr EWrongType)) /\
+  (forall ms, 0 < ms -> ms + Z.of_N now <= I64MAX ->
+     c_set now v (XPx ms) false false false oe = (Some (VStr v, Some (Z.to_N (ms + Z.of_N now))), ROk)) /\
+  (forall ms nx xx get, ms <= 0 -> c_set now v (XPx ms) nx xx get oe = (oe, RErr EInvalidExpire)) /\
+  (forall t, Z.of_N now < t -> c_set now v (XPxAt t) false false false oe = (Some (VStr v, Some (Z.to_N t)), ROk)) /\
+  (forall t, 0 < t -> t <= Z.of_N now -> c_set now v (XPxAt t) false false false oe = (None, ROk)).
+Proof. exact set_option_table_lemma. Qed.
+Print Assumptions C01_set_option_table.
+
+(* TTL / EXPIRETIME round to the nearest second, PTTL / PEXPIRETIME are exact; the EXPIRE family
+   evaluates NX/XX/GT/LT first and then deletes the key if the deadline is not in the future. *)
+Theorem C01_ttl_and_expire_tables : forall now w v (d : N) (od : option N) nx xx gt lt,
+  ((now < d)%N ->
+    (c_ttl now false false (Some (v, Some d))).2 = RInt ((Z.of_N d - Z.of_N now + 500) / 1000) /\
+    (c_ttl now true false (Some (v, Some d))).2 = RInt (Z.of_N d - Z.of_N now) /\
+    (c_ttl now false true (Some (v, Some d))).2 = RInt ((Z.of_N d + 500) / 1000) /\
+    (c_ttl now true true (Some (v, Some d))).2 = RInt (Z.of_N d)) /\
+  c_expire_at now w nx xx gt lt (Some (v, od)) =
+    if (nx && is_some od) || (xx && negb (is_some od))
+       || (gt && match od with Some c => w <=? Z.of_N c | None => true end)
+       || (lt && match od with Some c => w >=? Z.of_N c | None => false end)
+    then (Some (v, od), RInt 0)
+    else (if w <=? Z.of_N now then None else Some (v, Some (Z.to_N w)), RInt 1).
+Proof. intros. split; [apply ttl_rounding_lemma | apply expire_table_lemma]. Qed.
+Print Assumptions C01_ttl_and_expire_tables.
+
+(* ---- the implementation as built vs the reference *)
+
+(* Outside the class known_dev (GETSET of a string with a TTL; GETRANGE of a non-empty string
+   with two negative indices in the wrong order) the two dialects are the same function. *)
+Theorem C01_as_built_is_redis_outside_known_classes : forall s now c,
+  known_dev s c = false -> exec AsBuilt s now c = exec Redis s now c.
+Proof. exact dialect_eq_outside_class_lemma. Qed.
+Print Assumptions C01_as_built_is_redis_outside_known_classes.
+
+(* Known finding C01-getset-keeps-ttl: SET a x PX 1000; GETSET a y leaves the TTL in place. *)
+Theorem C01_getset_keeps_ttl_refuted :
+  known_dev dev_getset_state (GetSet [97%N] [121%N]) = true /\
+  (exec Redis dev_getset_state 0 (GetSet [97%N] [121%N])).1 !! [97%N] = Some (VStr [121%N], None) /\
+  (exec AsBuilt dev_getset_state 0 (GetSet [97%N] [121%N])).1 !! [97%N] = Some (VStr [121%N], Some 1000%N).
+Proof. exact getset_keeps_ttl_refuted_lemma. Qed.
+Print Assumptions C01_getset_keeps_ttl_refuted.
+
+(* Known finding C01-getrange-negative-order: SET a 1; GETRANGE a -2 -5 answers "1", Redis "". *)
+Theorem C01_getrange_negative_order_refuted :
+  known_dev dev_getrange_state (GetRange [97%N] (-2) (-5)) = true /\
+  (exec Redis dev_getrange_state 0 (GetRange [97%N] (-2) (-5))).2 = RBulk (Some []) /\
+  (exec AsBuilt dev_getrange_state 0 (GetRange [97%N] (-2) (-5))).2 = RBulk (Some [49%N]).
+Proof. exact getrange_negative_order_refuted_lemma. Qed.
+Print Assumptions C01_getrange_negative_order_refuted.
+
+(* A concrete run: SET k 10 PX 100; INCR k; RPUSH l a b; clock 99; LPOP l; LPOP l; clock 100. *)
+Example C01_nonvacuous :
+  (run Redis (firstn 4 ex_ops)).1 !! [107%N] = Some (VStr [49%N; 49%N], Some 100%N) /\
+  (run Redis (firstn 4 ex_ops)).1 !! [108%N] = Some (VList [[97%N]; [98%N]], None) /\
+  (run Redis (firstn 6 ex_ops)).1 !! [108%N] = None /\
+  map_to_list (run Redis ex_ops).1 = [] /\ (run Redis ex_ops).2 = 100%N.
+Proof. exact ex_run_lemma. Qed.
+Print Assumptions C01_nonvacuous.
